@@ -14,6 +14,15 @@ for d in sorted(glob.glob('/verif/seeded/C*-m*')):
     if c.get('also_caught_by'): by += ' (+' + c['also_caught_by'] + ')'
     sig = str(c.get('signature', '-'))[:95].replace('|', '/')
     rows.append('| %s | %s | %s | %s | %s |' % (os.path.basename(d), summ, by, res, sig))
-print('| change | what it does (author\'s summary, truncated) | check | result (quick tier) | signature(s) |')
-print('|---|---|---|---|---|')
-print('\n'.join(rows))
+table = '| change | what it does (author\'s summary, truncated) | check | result (quick tier) | signature(s) |\n|---|---|---|---|---|\n' + '\n'.join(rows) + '\n'
+import sys
+if '--update' in sys.argv:
+    p = '/verif/DESIGN.md'
+    s = open(p).read()
+    a, b = s.index('<!-- seedtable:begin -->'), s.index('<!-- seedtable:end -->')
+    s = s[:a] + '<!-- seedtable:begin -->\n' + table + s[b:]
+    open(p, 'w').write(s)
+    n = len(rows); caught = sum(1 for r in rows if '| caught |' in r); later = sum(1 for r in rows if 'after strengthening' in r); missed = sum(1 for r in rows if 'MISSED' in r)
+    print('rows', n, 'caught at once', caught, 'after strengthening', later, 'missed', missed)
+else:
+    print(table)
